@@ -752,6 +752,10 @@ func (st *tunnelClientStream) readMsgLocked() (data []byte, ok bool, err error) 
 	for {
 		in, ok := st.receiver.dequeue()
 		if !ok {
+			if err := st.loadDone(); msgLen != -1 && (err == nil || err == io.EOF) {
+				// stream closed normally, but in the middle of a message
+				return nil, false, status.Errorf(codes.Internal, "server closed stream before response message was finished (%d/%d)", len(b), msgLen)
+			}
 			return nil, true, st.loadDone()
 		}
 
